@@ -166,6 +166,15 @@ func (f *Func) redefineInputs(opts ...Arg) (reflect.Type, error) {
 	inputsProvided := map[interface{}]struct{}{}
 	for _, v := range vertexI {
 		inputsProvided[graph.VertexID(v)] = struct{}{}
+
+		// A value given by type satisfies the typed argument with the same
+		// type and subtype, so that argument is provided as well.
+		if out, ok := v.(*typedOutputVertex); ok {
+			inputsProvided[graph.VertexID(&typedArgVertex{
+				Type:    out.Type,
+				Subtype: out.Subtype,
+			})] = struct{}{}
+		}
 	}
 
 	// Build our required value
